@@ -1482,7 +1482,7 @@ class C12Check(_MolCheck):
 
     def budgets(self, tier):
         if tier == 'thorough':
-            return {'runs': 400000, 'determinism': 300, 'wall': 3000}
+            return {'runs': 1000000, 'determinism': 300, 'wall': 3400}
         return {'runs': 20000, 'determinism': 60, 'wall': 1800}
 
 
@@ -1498,7 +1498,7 @@ class C02Check(_MolCheck):
 
     def budgets(self, tier):
         if tier == 'thorough':
-            return {'runs': 200000, 'determinism': 300, 'wall': 3000}
+            return {'runs': 500000, 'determinism': 300, 'wall': 3400}
         return {'runs': 12000, 'determinism': 60, 'wall': 1800}
 
 
@@ -1518,7 +1518,7 @@ class C03MCheck(_MolCheck):
 
     def budgets(self, tier):
         if tier == 'thorough':
-            return {'runs': 100000, 'determinism': 200, 'wall': 2400}
+            return {'runs': 300000, 'determinism': 200, 'wall': 3400}
         return {'runs': 6000, 'determinism': 40, 'wall': 1800}
 
 
